@@ -33,6 +33,8 @@ pub(crate) enum ObsRole {
     Ibgp,
     RrClient,
     RsClient,
+    /// a neighbour in another Member-AS of the local confederation (RFC 5065)
+    Confed,
 }
 
 #[derive(Clone, Debug)]
@@ -183,6 +185,7 @@ impl PipeModel {
         p.holdtime = 90;
         match self.role {
             ObsRole::Ebgp => p.expected_remote_asn = 65100,
+            ObsRole::Confed => p.expected_remote_asn = 65101,
             ObsRole::RsClient => {
                 p.expected_remote_asn = 65100;
                 p.rs_client = true;
@@ -206,7 +209,14 @@ impl PipeModel {
     fn peer_asn(&self) -> u32 {
         match self.role {
             ObsRole::Ebgp | ObsRole::RsClient => 65100,
+            ObsRole::Confed => 65101,
             _ => 65000,
+        }
+    }
+    /// the confederation the daemon is a member of (Confed observer only)
+    fn set_confederation(&self, g: &mut Global) {
+        if self.role == ObsRole::Confed {
+            g.confederation = Some(ConfederationConfig { id: 64999, members: [65000u32, 65101].into_iter().collect() });
         }
     }
     fn peer_caps(&self) -> Vec<packet::Capability> {
@@ -224,6 +234,7 @@ impl PipeModel {
             // a route learned from the observing neighbour itself (echo filter)
             obs_src: Arc::new(table::Source::new(OBS, IpAddr::V4(Ipv4Addr::new(127, 0, 0, 1)), self.peer_asn(), 65000, Ipv4Addr::new(10, 10, 10, 10), match self.role {
                 ObsRole::Ebgp => table::PeerRole::Ebgp,
+                ObsRole::Confed => table::PeerRole::ConfedEbgp,
                 ObsRole::RsClient => table::PeerRole::RsClient,
                 ObsRole::Ibgp => table::PeerRole::Ibgp,
                 ObsRole::RrClient => table::PeerRole::IbgpRrClient,
@@ -426,6 +437,7 @@ impl Model for PipeModel {
         let conn = rt.block_on(async {
             {
                 let mut g = d.global.write().await;
+                self.set_confederation(&mut g);
                 g.add_peer(p1, None).expect("add_peer");
             }
             if late {
@@ -620,6 +632,7 @@ impl Model for PipeModel {
                         let d2 = Daemon::new(self.shards);
                         {
                             let mut g = d2.global.write().await;
+                            self.set_confederation(&mut g);
                             g.add_peer(self.peer_params(OBS), None).map_err(|_| "add_peer on replica".to_string())?;
                         }
                         let mut st2 = self.rib_state();
@@ -685,7 +698,7 @@ impl Model for PipeModel {
                             // independent of the dump (a brand-new session goes through the same dump code):
                             // to iBGP-type and route-server neighbours the next hop is the one stored with the
                             // path the route was exported from
-                            if !matches!(self.role, ObsRole::Ebgp) {
+                            if !matches!(self.role, ObsRole::Ebgp | ObsRole::Confed) {
                                 let loc = sys.d.tables.collect_loc_rib_paths(F);
                                 for ((pfx, pid), (_, nhop)) in sys.mirror.iter() {
                                     let Some(c) = loc.iter().find(|c| format!("{}", c.net) == *pfx) else { continue };
@@ -954,6 +967,8 @@ fn models(thorough: bool) -> Vec<PipeModel> {
         v.push(mk("c01-ibgp-addpath2-refresh-ahead", ObsRole::Ibgp, 2, 1, "ahead"));
         v.push(mk("c01-ebgp-refresh-ahead", ObsRole::Ebgp, 1, 1, "ahead"));
         v.push(mk("c01-ebgp-addpath2-restart-2shards", ObsRole::Ebgp, 2, 2, "restart"));
+        v.push(mk("c01-confed-multi", ObsRole::Confed, 1, 1, "multi"));
+        v.push(mk("c01-confed-addpath2-gr", ObsRole::Confed, 2, 1, "gr"));
     }
     v
 }
@@ -988,7 +1003,14 @@ pub(crate) fn run(replay: Option<&str>) -> Report {
     if rep.machinery_error.is_some() {
         return rep;
     }
+    let only = std::env::var("VERIF_C01_ONLY").ok();
+    if let Some(o) = &only {
+        rep.notes.push(format!("PARTIAL RUN: only the models whose name contains {o:?} (VERIF_C01_ONLY)"));
+    }
     for m in models(thorough) {
+        if only.as_ref().is_some_and(|o| !m.name.contains(o.as_str())) {
+            continue;
+        }
         // the multi-source pack has ~20 ops: one level less in the quick tier
         // (thorough: 7 / 5 - the state now contains the queued change events, which costs a
         // factor of ~15 in states against the earlier, unsound, fingerprint)
